@@ -183,6 +183,10 @@ func runC16(r *Report) {
 						k, isc := ConstInt(bo.Y)
 						good = isc && k == w
 					}
+					// or a second loop variable advancing in lockstep: for i, j := 0, 0; ...; i, j = i+1, j+w
+					if !good {
+						good = lockstepMultiple(K, ia.Index, w)
+					}
 				}
 			}
 			r.ObSite("R16a", s, "output-i-from-input-i", good, "output element i is computed from input element i (or from the i-th window of the flat shape); "+why)
@@ -258,4 +262,37 @@ func runC16(r *Report) {
 		}
 		r.Anchor("R16b", name+": map stores", n >= 1)
 	}
+}
+
+// lockstepMultiple: k and i are phis of the same loop header that start at constants and advance by
+// constants on the same edges, with k == w*i throughout (k0 == w*i0, step_k == w*step_i).
+func lockstepMultiple(k, i ssa.Value, w int64) bool {
+	pk, ok1 := k.(*ssa.Phi)
+	pi, ok2 := i.(*ssa.Phi)
+	if !ok1 || !ok2 || pk.Block() != pi.Block() || len(pk.Edges) != len(pi.Edges) {
+		return false
+	}
+	edge := func(p *ssa.Phi, e ssa.Value) (init bool, v int64, ok bool) {
+		if c, isc := ConstInt(e); isc {
+			return true, c, true
+		}
+		if bo, isb := e.(*ssa.BinOp); isb && bo.Op == token.ADD && bo.X == ssa.Value(p) {
+			if c, isc := ConstInt(bo.Y); isc {
+				return false, c, true
+			}
+		}
+		return false, 0, false
+	}
+	steps := 0
+	for n := range pk.Edges {
+		ik, vk, okk := edge(pk, pk.Edges[n])
+		ii, vi, oki := edge(pi, pi.Edges[n])
+		if !okk || !oki || ik != ii || vk != w*vi {
+			return false
+		}
+		if !ik {
+			steps++
+		}
+	}
+	return steps > 0
 }
